@@ -200,6 +200,8 @@ def _s_cluster(tier):
                                                fl(0.0, 1.0)).map(list),
                                      max_size=4),
                      busers_list=st.booleans(), busers_ends=st.booleans(),
+                     busers_form=st.sampled_from(["single", "list",
+                                                  "by_cell"]),
                      ratio=st.one_of(st.just(0.0), fl(0.0, 0.7)),
                      wrap=st.booleans(), seed=seeds)
     return st.one_of(one("simple"), one("3sec"), one("square"))
@@ -850,7 +852,15 @@ def _check_cluster(case, ctx):
         bus[0] = (bus[0][0], bus[0][1], 0.0)
         bus[-1] = (bus[-1][0], bus[-1][1], 1.0)
     before = dict((k, list(c.users)) for k, c in enumerate(cells))
-    if case.get("busers_list") and len(bus) >= 2:
+    if case.get("busers_form") == "by_cell" and bus:
+        # one call per cell: a single cell id with the angles and ratios of
+        # all its border users (the order of users inside a cell is kept)
+        ctx.label("cluster:border_users_one_call_per_cell")
+        for cid in sorted(set(b[0] for b in bus)):
+            mine = [b for b in bus if b[0] == cid]
+            cl.add_border_users(cid, [b[1] for b in mine],
+                                [b[2] for b in mine])
+    elif case.get("busers_list") and len(bus) >= 2:
         # one call: a cell id, an angle and a ratio per user
         ctx.label("cluster:border_users_list_call")
         cl.add_border_users([b[0] for b in bus], [b[1] for b in bus],
